@@ -285,7 +285,11 @@ func runProperty(g *Gen, prop, tier, out string, cfg SolverCfg, t0 time.Time) in
 			viols = append(viols, viol{ob, r, ""})
 		}
 	}
-	// baseline: every expected obligation must have been regenerated
+	// baseline: every expected obligation must have been regenerated (not while the baseline itself is being rewritten after
+	// a change of the contracts: GOVC_WRITE_BASELINE replaces the list when everything generated is discharged)
+	if os.Getenv("GOVC_WRITE_BASELINE") != "" {
+		baseline = nil
+	}
 	for _, n := range baseline {
 		if !seen[baselineName(n)] {
 			ob := &Obligation{Unit: n[:unitSep(n)], Name: n[min(unitSep(n)+1, len(n)):], Kind: "baseline", Clause: "obligation listed in baseline/" + prop + ".txt is generated again", Result: "missing"}
